@@ -32,20 +32,22 @@ CONSTANTS RootUsesMenu,   \* menu (a sequence) of `uses` lists: sequences of [f,
 \* input kinds: "class"/"name" (required), "opt" (InputTaskParameter with a default), "pattern" (~regex, own namespace)
 NoGrp == <<>>
 Ref(g, n) == [ns |-> <<>>, grp |-> g, name |-> n]
-Classes == {"a", "b", "c", "d", "trainx", "ge", "f", "pat", "cy1", "cy2", "z", "w"}
+Classes == {"a", "b", "c", "d", "trainx", "ge", "f", "pat", "cy1", "cy2", "z", "w", "bsub"}
 Slug == [c \in Classes |->
   CASE c = "a" -> Ref(NoGrp, "a")            [] c = "b" -> Ref(NoGrp, "b")
     [] c = "c" -> Ref(NoGrp, "c")            [] c = "d" -> Ref(NoGrp, "d")
     [] c = "trainx" -> Ref(NoGrp, "train_x") [] c = "ge" -> Ref(<<"g">>, "e")
     [] c = "f" -> Ref(NoGrp, "f")            [] c = "pat" -> Ref(NoGrp, "pat")
     [] c = "cy1" -> Ref(NoGrp, "cy1")        [] c = "cy2" -> Ref(NoGrp, "cy2")
-    [] c = "z" -> Ref(NoGrp, "z")            [] c = "w" -> Ref(<<"g">>, "a")]
+    [] c = "z" -> Ref(NoGrp, "z")            [] c = "w" -> Ref(<<"g">>, "a")
+    [] c = "bsub" -> Ref(NoGrp, "bsub")]      \* a class DERIVED from b with a Meta of its own: its own name, inputs, no parameters
 Inputs == [c \in Classes |->
   CASE c = "b" -> <<[kind |-> "class", ref |-> Ref(NoGrp, "a")]>>
     [] c = "c" -> <<[kind |-> "name", ref |-> Ref(NoGrp, "a")], [kind |-> "opt", ref |-> Ref(NoGrp, "b")]>>
     [] c = "d" -> <<[kind |-> "class", ref |-> Ref(NoGrp, "train_x")]>>
     [] c = "f" -> <<[kind |-> "name", ref |-> Ref(NoGrp, "e")]>>
     [] c = "pat" -> <<[kind |-> "pattern", ref |-> Ref(NoGrp, "a")]>>    \* ~(.*:)?a : every task named a, any group
+    [] c = "bsub" -> <<[kind |-> "name", ref |-> Ref(NoGrp, "a")]>>
     [] c = "cy1" -> <<[kind |-> "name", ref |-> Ref(NoGrp, "cy2")]>>
     [] c = "cy2" -> <<[kind |-> "name", ref |-> Ref(NoGrp, "cy1")]>>
     [] OTHER -> <<>>]
